@@ -86,13 +86,13 @@ def run(ctx):
     drift = len(tv.tagged("DRIFT"))
     sigs = set()
     for x in recs:
-        sigs.add((x["server"], shape_name(x["sh"]), x["sh"].get("site", ""), x["nb"],
+        sigs.add((x["server"], shape_name(x["sh"]), x["nb"],
                   tuple((p["status"], norm(p.get("err", ""))) for p in x["obs"]["responses"]), x["obs"]["alive"]))
     ctx.set("evaluations", len(recs))
     ctx.set("distinct_nontrivial", len(sigs))
     ctx.set("rule", "one evaluation = one (shape from TLC, neighbourhood, server): corrupted file built from a real recording and the "
-                    "server queried in a child process; distinct non-trivial = distinct (server, shape, site, neighbourhood, response "
-                    "statuses and normalized error texts, alive) tuples - every shape changes the file")
+                    "server queried in a child process; distinct non-trivial = distinct (server, shape without its site, neighbourhood, "
+                    "response statuses and normalized error texts, alive) tuples - every shape changes the file")
     ctx.set("shapes", len(cases))
     ctx.set("requests", sum(len(x["obs"]["responses"]) for x in recs))
     ctx.set("traces_validated_against_impl", len(recs))
